@@ -17,6 +17,9 @@ var vC14Progs = []string{
 	"4d6dl5 + 1", "2d10dh3 * 2", "3d6kh4 - 1", "3d6dl3", "2d6kl2 + 2d6dh1",
 }
 
+// follow-up texts without dice (their process text does not depend on draws)
+var vC14Next = []string{"1 + 2", "7", "力量 + 1", "(1 + 2) * 3 - 力量"}
+
 // vC14Eval evaluates the arithmetic in a skeleton (numbers replaced by '#')
 // taking the values from ints in order.
 type vC14P struct {
@@ -98,7 +101,7 @@ func (p *vC14P) sum() int64 {
 	}
 }
 
-//vh:prop=C14 tiers=quick,thorough sigkeys=prog summaries=Roll:roll-contract solver=z3-new/int unwind=10 unwind_ok=1 budget_s=1800 bounds="36 expressions over + - * ( ) with integer literals, a multi-byte identifier bound to a symbolic integer (|v| <= 2^20), and dice terms of every family (XdY with keep/drop/min/max/advantage, CoC, Fate, WoD, Double Cross) whose dice are symbolic Roll-contract values, with spaces, tabs and line breaks: deleting the [..] annotations from the process text leaves an arithmetic expression that evaluates to the result; every XdY annotation's value is the sum of the kept dice it lists; GetDetailText is idempotent and leaves result, variables and generator log unchanged"
+//vh:prop=C14 tiers=quick,thorough sigkeys=prog,next summaries=Roll:roll-contract solver=z3-new/int unwind=10 unwind_ok=1 budget_s=1800 bounds="36 expressions over + - * ( ) with integer literals, a multi-byte identifier bound to a symbolic integer (|v| <= 2^20), and dice terms of every family (XdY with keep/drop/min/max/advantage, CoC, Fate, WoD, Double Cross) whose dice are symbolic Roll-contract values, with spaces, tabs and line breaks: deleting the [..] annotations from the process text leaves an arithmetic expression that evaluates to the result; every XdY annotation's value is the sum of the kept dice it lists; GetDetailText is idempotent and leaves result, variables and generator log unchanged; one of 4 dice-free texts evaluated next on the same VM gets the process text it gets on a fresh VM"
 func VH_C14_expr() {
 	k := vChoice("prog", len(vC14Progs))
 	vm := vSeededVM()
@@ -124,6 +127,16 @@ func VH_C14_expr() {
 	vAssert(r2 == ret, "result-unchanged-by-observing")
 	vAssert(vDrawCount() == draws, "generator-unchanged-by-observing")
 	vAssert(vAttrsString(vm) == attrs, "variables-unchanged-by-observing")
+	// the next text evaluated on the same VM is explained on its own terms
+	// (no span of this run survives into it)
+	next := vC14Next[vChoice("next", len(vC14Next))]
+	fresh := vSeededVM()
+	fresh.Attrs.Store("力量", NewIntVal(IntType(str)))
+	_ = fresh.Run(next)
+	freshDetail := fresh.GetDetailText()
+	e2 := vm.Run(next)
+	vAssert(e2 == nil, "next-expression-evaluates")
+	vAssert(vm.GetDetailText() == freshDetail, "next-evaluation's-process-text-is-its-own")
 	if detail == "" {
 		return // nothing to explain (the text equals the result)
 	}
